@@ -6,7 +6,9 @@ Copyright 2020, 2021 William W. Kimball, Jr. MBA MSIS
 from itertools import zip_longest
 from typing import Any, Dict, Generator, List, Optional, Tuple, Union
 
-from ruamel.yaml.comments import CommentedMap, CommentedSeq, CommentedSet
+from ruamel.yaml.comments import (
+    CommentedMap, CommentedSeq, CommentedSet, TaggedScalar
+)
 
 from yamlpath import YAMLPath
 from yamlpath.wrappers import ConsolePrinter, NodeCoords
@@ -897,6 +899,12 @@ class Differ:
         if isinstance(lhs, (dict, list, tuple)) or isinstance(
                 rhs, (dict, list, tuple)):
             return False
+        if isinstance(lhs, TaggedScalar) or isinstance(rhs, TaggedScalar):
+            # Custom-tagged Scalars have no equality of their own
+            return (isinstance(lhs, TaggedScalar)
+                    and isinstance(rhs, TaggedScalar)
+                    and lhs.tag.value == rhs.tag.value
+                    and Differ._same_data(lhs.value, rhs.value))
         if isinstance(lhs, bool) != isinstance(rhs, bool):
             return False
         return bool(lhs == rhs)
